@@ -158,7 +158,7 @@ func runEngineCase(c Case) (out engineOut) {
 			return
 		}
 		sb.WriteString(" (change " + dumpMeta(pc.Meta) + " (minus " + minus + ") (plus " + plus + ")" +
-			" (start " + strconv.Itoa(key(pc.Patch.Pos())) + ") (end " + strconv.Itoa(key(pc.Patch.End())) + "))")
+			" (start " + strconv.Itoa(key(implicitStart(pc.Patch.Pos()))) + ") (end " + strconv.Itoa(key(pc.Patch.End())) + "))")
 	}
 	fd := &dumper{ids: map[uintptr]int{}, posKey: func(p token.Pos) int { return int(p) }}
 	fd.val(reflect.ValueOf(f))
@@ -200,6 +200,15 @@ func runEngineCase(c Case) (out engineOut) {
 	}()
 	out.resLine = "(res " + c.ID + " (trace " + strings.Join(trace, " ") + ") " + res + ")"
 	return
+}
+
+// implicitStart is the position the engine gives the "..." implied in front of the statements of a patch:
+// the position before the patch body starts (see implicitDotsPos in internal/engine/stmt_list.go).
+func implicitStart(p token.Pos) token.Pos {
+	if p > 1 {
+		return p - 1
+	}
+	return p
 }
 
 var _ = ast.Inspect
